@@ -111,4 +111,4 @@ def count(name, lines, ib, stats, meta):
         stats['distinct'].add((stcls, d['tos'] if (d['tos'] < 3 or name.startswith('sweep')) else 'x', d['opc'] if (d['opc'] < 13 or name.startswith('sweep')) else 'x', bool(sends_of(b))))
         if len(stats['samples']) < 4 and d['opc'] == 0 and stcls == 'other': stats['samples'].append({'state': 'mapper ' + tr.active.hex(), 'discover_from': d['rsrc'].hex(), 'replied': bool(sends_of(b))})
         tr.feed(d)
-EXPLORE = dict(ops=('frame',), mtu=True)
+EXPLORE = dict(domain='frames', ops=('frame',), mtu=True)
